@@ -42,8 +42,9 @@ let in_fault = ref false    (* the current operation ran with a failed allocatio
 
 let connecting : (int, unit) Hashtbl.t = Hashtbl.create 4   (* servers whose connection is being made by the real connecter *)
 let realmode : (int, unit) Hashtbl.t = Hashtbl.create 4     (* servers that write through the real transport *)
+let strict_empty_username = ref false   (* cfg strict empty-username: judge a zero-length User-Name by the property text (C08) *)
 let reset () =
-  cur_fs := fs_none; dead := false; in_fault := false; Hashtbl.reset connecting; Hashtbl.reset realmode;
+  cur_fs := fs_none; dead := false; in_fault := false; strict_empty_username := false; Hashtbl.reset connecting; Hashtbl.reset realmode;
   Hashtbl.reset txhist; Hashtbl.reset impl_prev; Hashtbl.reset pending_reset; Hashtbl.reset impl_prev_cl; Hashtbl.reset impl_prev_state; Hashtbl.reset impl_prev_replied; Hashtbl.reset dupcache; Hashtbl.reset gone; Hashtbl.reset gone_srv;
   options := opt_default; clients := []; servers := []; realms := []; st := None; Hashtbl.reset display; diverged := false
 
@@ -53,6 +54,7 @@ let ints s = List.map int_of_string (split_list s)
 
 let cfg_line (rest : string list) =
   match rest with
+  | [ "strict"; "empty-username" ] -> strict_empty_username := true
   | "options" :: toks ->
       let k = kv toks in
       options := { o_ttl0 = n_of_int (int_of_string (get k "ttl0" "27262")); o_ttl1 = n_of_int (int_of_string (get k "ttl1" "1"));
@@ -516,6 +518,14 @@ let op_cpkt opidx impl_all toks =
           spec opidx "C01_queued_exactly_once" (m_enq = i_enq)
             (Printf.sprintf "client %d: queued for server(s) [%s], the configuration routes it to [%s]" c
                (String.concat "," (List.map string_of_int i_enq)) (String.concat "," (List.map string_of_int m_enq)))
+      end;
+      (* C08, as the property states it: '*' matches EVERY User-Name, the zero-length one included (quantifier: lengths
+         0..253).  Evaluated only in the cases that ask for it (a realm '*' with a usable server and nothing else). *)
+      if !strict_empty_username && not !in_fault then begin
+        let p = bytes_of_hex pkt in
+        if wf_packet p && List.exists (fun (t, _, v) -> t = 1 && v = []) (attr_list p) then
+          spec opidx "C08_star_matches_empty_username" (impl_events impl_all "enq" <> [])
+            (Printf.sprintf "client %d: a request whose User-Name has length 0 was not forwarded although realm * has a server" c)
       end;
       print_outs opidx o ~wake_first:false; flush_misses opidx; print_state opidx s
   | _ -> ()
